@@ -445,3 +445,78 @@ def check_siblings(ctx, F, rule="E-FFI.siblings"):
                "reviewed deviation oxidd_%s_%s: %s%s" % (key[1], key[0], why, "" if key in used else " -- no longer exists"),
                nontrivial=False)
     return n
+
+
+_DEREF = re.compile(r"::(from_raw_parts|from_raw_parts_mut|from_raw|from_ptr|as_ref|as_mut|read|write|write_unaligned|read_unaligned|"
+                    r"copy_to_nonoverlapping|copy_from_nonoverlapping|drop_in_place|offset|add)$")
+
+
+def check_null_guards(ctx, F, rule="E-FFI.null"):
+    """Where a C-facing function tests one of its raw pointers with `is_null()`, everything that dereferences or takes
+    ownership through a pointer (`from_raw_parts`, `Box::from_raw`, `CStr::from_ptr`, `read` / `write`, ...) lies on the
+    `false` edge of a null test only: a flipped test frees / reads through NULL and skips the real work for valid
+    pointers.  (Functions without a null test document their pointers as non-null and are not judged here.)"""
+    n = 0
+    for fid, m in sorted(F.mir.items()):
+        if not fid.startswith("oxidd_ffi_c::"):
+            continue
+        B = cfg.Body(m)
+        blocks = m["blocks"]
+        tests = [i for i, t in B.calls() if re.search(r"ptr::(mut_ptr|const_ptr)::<impl \*(mut|const) T>::is_null$|::is_null$",
+                                                      cfg.callee_name(t) or "") and not blocks[i]["c"]]
+        if not tests:
+            continue
+        derefs = [i for i, t in B.calls() if _DEREF.search(cfg.callee_name(t) or "") and not blocks[i]["c"]
+                  and re.search(r"ptr::|slice::from_raw|Vec::<|Box::<|boxed::Box|CStr::|NonNull", cfg.callee_name(t) or "")]
+        if not derefs:
+            continue
+        null_reach = set()
+        judged = False
+        for c in tests:
+            t = blocks[c]["t"]
+            dest, nxt = t.get("d"), t.get("t")
+            if not isinstance(dest, int) or nxt is None:
+                continue
+            neg, cur = None, nxt
+            for _ in range(4):
+                b = blocks[cur]
+                for st in b["s"]:
+                    rv = st.get("rv") or {}
+                    if rv.get("k") == "un" and rv.get("o") == "Not" and cfg.op_place(rv.get("a", rv.get("op"))) == dest:
+                        neg = st.get("lhs")
+                tt = b["t"]
+                if tt["k"] == "switch":
+                    d = cfg.op_place(tt.get("d"))
+                    zero = [blk for v, blk in tt["t"] if str(v) == "0"]
+                    true_e = None
+                    if d == dest:
+                        true_e = [tt.get("o")]
+                    elif neg is not None and d == neg:
+                        true_e = zero
+                    if true_e is not None:
+                        judged = True
+                        # blocks reachable only on the null edge: reachable from the null edge but not from the other one
+                        others = zero if true_e != zero else [tt.get("o")]
+                        rt, ro = set(), set()
+                        for x in true_e:
+                            if x is not None:
+                                rt |= B.reachable_from(x, avoid=(cur,))
+                        for x in others:
+                            if x is not None:
+                                ro |= B.reachable_from(x, avoid=(cur,))
+                        null_reach |= (rt - ro)
+                    break
+                if tt["k"] == "goto" and isinstance(tt.get("t"), int):
+                    cur = tt["t"]
+                else:
+                    break
+        if not judged:
+            continue
+        n += 1
+        bad = [i for i in derefs if i in null_reach]
+        ctx.ob(rule, "%s:%s" % (rule, F.nice(fid)), not bad,
+               "%s (%s): %s" % (F.nice(fid), F.where(fid),
+                                "pointer operations lie on the non-null edge of the null test" if not bad else
+                                "%s is reached only when the pointer IS null (the test is inverted)" %
+                                ", ".join(sorted({(cfg.callee_name(blocks[i]["t"]) or "").rsplit("::", 1)[-1] for i in bad}))))
+    return n
